@@ -299,3 +299,218 @@ Proof.
 Qed.
 
 End MeekExit.
+
+(* ================================================================== meek-prf (PRF reference Meek rule) ==================
+   It logs no 'iterate' actions; the exclusion message itself says why the iteration ended.  Every exclusion other than the
+   closing "Defeat remaining" is either "Defeat (surplus X < omega)" with a recorded total surplus below omega, or
+   "Defeat (stable surplus X)" with the log line "Stable state detected (...)" earlier in the same round. *)
+Section PrfExit.
+Variable A : arith.
+Variable cfg : config.
+Notation est := (est A).
+Notation action := (action A).
+Hypothesis Hm : cf_method cfg = MMeek.
+Local Open Scope cmd_scope.
+Notation T3 := (triple est (@crashed A)).
+
+Fixpoint stable_logged (l : list action) : bool :=
+  match l with
+  | [] => false
+  | b :: t => match a_tag b with
+              | TRound => false
+              | TLog => prefix "Stable state detected (" (a_msg b) || stable_logged t
+              | _ => stable_logged t
+              end
+  end.
+Definition oka2 (a : action) (older : list action) : Prop :=
+  match a_tag a with
+  | TDefeat =>
+    is_remaining (a_msg a) = true \/
+    (prefix "Defeat (surplus " (a_msg a) = true /\
+       exists sn sp, a_snap a = Some sn /\ as_surplus sn = Some sp /\ ltv A sp (omega_or0 A cfg) = true) \/
+    (prefix "Defeat (stable surplus " (a_msg a) = true /\ stable_logged older = true)
+  | _ => True
+  end.
+Fixpoint HI2 (l : list action) : Prop := match l with [] => True | a :: t => oka2 a t /\ HI2 t end.
+
+Lemma hi2_quiet (l old : list action) : Forall (quiet A) l -> HI2 old -> HI2 (l ++ old).
+Proof.
+  induction 1 as [|a l Ha _ IH]; intros H; cbn [app HI2]; [exact H|]. split; [|apply IH; exact H].
+  unfold oka2. unfold quiet in Ha. destruct (a_tag a); try exact I; contradiction.
+Qed.
+Lemma sl_quiet (l old : list action) : Forall (quiet A) l -> stable_logged old = true -> stable_logged (l ++ old) = true.
+Proof.
+  induction 1 as [|a l Ha _ IH]; intros H; cbn [app stable_logged]; [exact H|]. unfold quiet in Ha.
+  destruct (a_tag a); try (apply IH; exact H); try contradiction. rewrite (IH H). apply orb_true_r.
+Qed.
+Lemma qe_hi2 s s' : QE A s s' -> HI2 (actions s) -> HI2 (actions s').
+Proof. intros (l & E & F) H. rewrite E. apply hi2_quiet; assumption. Qed.
+Lemma qe_sl s s' : QE A s s' -> stable_logged (actions s) = true -> stable_logged (actions s') = true.
+Proof. intros (l & E & F) H. rewrite E. apply sl_quiet; assumption. Qed.
+
+Lemma prefix_app2 (p y z : string) : prefix p ((p ++ y) ++ z) = true.
+Proof.
+  induction p as [|a p IH]; cbn [append prefix]; [destruct (y ++ z); reflexivity|].
+  destruct (Ascii.ascii_dec a a) as [_|N]; [exact IH|contradiction].
+Qed.
+
+(* state facts *)
+Definition PST (s : est) : Prop :=
+  lv_status s = IS_iterate \/ lv_status s = IS_elected \/
+  (lv_status s = IS_omega /\ ltv A (surplus s) (omega_or0 A cfg) = true) \/
+  (lv_status s = IS_stable /\ stable_logged (actions s) = true).
+
+Lemma fold_elect_status (L : list (cand A)) : forall t : est,
+  let t' := fold_left (fun s0 c => set_status (elect A cfg (cid c) "Elect" false s0) IS_elected) L t in
+  (lv_status t' = lv_status t \/ lv_status t' = IS_elected) /\ QE A t t'.
+Proof.
+  induction L as [|c L IH]; intros t; cbn [fold_left]; [split; [left; reflexivity|apply qe_refl]|].
+  destruct (IH (set_status (elect A cfg (cid c) "Elect" false t) IS_elected)) as [Hs Hq]. cbv zeta in *. split.
+  - destruct Hs as [E|E]; [right; rewrite E; reflexivity|right; exact E].
+  - eapply qe_trans; [|exact Hq]. eapply qe_trans; [apply qe_elect|apply qe_same; reflexivity].
+Qed.
+
+Lemma actions_prf_distribute (s : est) : actions (prf_distribute A s) = actions s /\ lv_status (prf_distribute A s) = lv_status s.
+Proof.
+  unfold prf_distribute. cbv zeta.
+  match goal with |- context[fold_left ?f (ballots ?s0) ?i] => destruct (fold_left f (ballots s0) i) as [[cs r] bs] end. split; reflexivity.
+Qed.
+Lemma status_update_kfs cl (s : est) : lv_status (update_kfs A cl s) = lv_status s.
+Proof.
+  unfold update_kfs. generalize (electeds A s) as l. intros l. revert s. induction l as [|c l IH]; intros s; cbn [fold_left]; [reflexivity|].
+  rewrite IH. destruct (crashed s); [reflexivity|]. destruct (kdiv A _ _ _); reflexivity.
+Qed.
+
+Lemma prf_step_exit (s : est) : lv_status s = IS_iterate ->
+  QE A s (prf_iterate_step A cfg s) /\ PST (prf_iterate_step A cfg s).
+Proof.
+  intros Hst. unfold prf_iterate_step. cbv zeta.
+  destruct (actions_prf_distribute s) as [Ea1 Es1]. set (s1 := prf_distribute A s) in *.
+  match goal with |- context[set_quota_r A ?a ?b] => set (s3 := set_quota_r A a b) end.
+  assert (E3: actions s3 = actions s /\ lv_status s3 = IS_iterate).
+  { unfold s3, set_quota_r. destruct (prf_quota A cfg _); cbn [actions lv_status set_quota set_crash set_votes]; rewrite Ea1, Es1; auto. }
+  destruct E3 as [Ea3 Es3].
+  destruct (crashed s3); [split; [apply qe_same; exact Ea3|left; exact Es3]|].
+  match goal with |- context[fold_left ?f ?W s3] => destruct (fold_elect_status W s3) as [Hs4 Hq4]; set (s4 := fold_left f W s3) in * end.
+  cbv zeta in Hs4, Hq4. rewrite Es3 in Hs4.
+  assert (Q4: QE A s s4) by (eapply qe_trans; [apply qe_same; exact Ea3|exact Hq4]).
+  set (sp := elected_surplus A s4).
+  set (s5 := set_surplus s4 (if ltv A sp (V0 A) then V0 A else sp)).
+  assert (E5: lv_status s5 = lv_status s4) by reflexivity.
+  destruct (lv_status s5 =? IS_elected)%Z eqn:G5.
+  - (* elected *) assert (Ee: lv_status s5 = IS_elected) by lia.
+    destruct (lv_status s5 =? IS_iterate)%Z eqn:Gi; [unfold IS_elected, IS_iterate in *; lia|].
+    split; [eapply qe_trans; [exact Q4|apply qe_same; reflexivity]|right; left; exact Ee].
+  - assert (Ei: lv_status s5 = IS_iterate) by (destruct Hs4 as [E|E]; [congruence|unfold IS_elected in *; lia]).
+    destruct (ltv A (surplus s5) (omega_or0 A cfg)) eqn:Gom.
+    + cbn [lv_status set_status]. change (IS_omega =? IS_iterate)%Z with false. cbv iota.
+      split; [eapply qe_trans; [exact Q4|apply qe_same; reflexivity]|]. right; right; left. split; [reflexivity|exact Gom].
+    + destruct (gev A (surplus s5) (lv_last s5)) eqn:Gst.
+      * unfold log_msg, log_action. cbn [is_log lv_status set_status set_actions]. change (IS_stable =? IS_iterate)%Z with false. cbv iota.
+        split.
+        -- eapply qe_trans; [exact Q4|]. eexists [_]. split; [reflexivity|]. constructor; [exact I|constructor].
+        -- right; right; right. split; [reflexivity|]. cbn [actions set_actions set_status].
+           match goal with |- stable_logged (?b :: ?t) = true =>
+             change (match a_tag b with TRound => false | TLog => prefix "Stable state detected (" (a_msg b) || stable_logged t | _ => stable_logged t end = true) end.
+           cbn [a_tag a_msg]. rewrite prefix_app. reflexivity.
+      * rewrite Ei. change (IS_iterate =? IS_iterate)%Z with true. cbv iota. split.
+        -- eapply qe_trans; [exact Q4|]. apply qe_same. rewrite actions_update_kfs. reflexivity.
+        -- left. rewrite status_update_kfs. exact Ei.
+Qed.
+
+(* the exclusion step *)
+Lemma bt_fields fmt tied (s : est) :
+  lv_status (fst (break_tie A cfg fmt tied s)) = lv_status s /\ surplus (fst (break_tie A cfg fmt tied s)) = surplus s.
+Proof.
+  unfold break_tie. destruct tied as [|c [|c2 t]]; cbn [fst]; [split; reflexivity|split; reflexivity|].
+  destruct (by_tie A (c :: c2 :: t)); cbn [fst]; [split; reflexivity|]. unfold log_action. cbn [is_log is_round]. split; reflexivity.
+Qed.
+
+Lemma hi2_defeat_low fmt (s : est) : HI2 (actions s) ->
+  ((lv_status s = IS_omega /\ ltv A (surplus s) (omega_or0 A cfg) = true) \/ (lv_status s = IS_stable /\ stable_logged (actions s) = true)) ->
+  HI2 (actions (meek_defeat_low A cfg fmt false s)).
+Proof.
+  intros H Hc. unfold meek_defeat_low. destruct (low_within_surplus A s) as [lows|]; [|exact H].
+  pose proof (qe_break_tie A cfg fmt lows s) as Q. destruct (bt_fields fmt lows s) as [Est Esp].
+  destruct (break_tie A cfg fmt lows s) as [s1 [l|]]; cbn [fst] in *; [|exact (qe_hi2 _ _ Q H)]. cbv zeta.
+  pose proof (qe_hi2 _ _ Q H) as H1.
+  match goal with |- context[defeat A cfg l ?m s1] => set (msg := m) end.
+  assert (H2: HI2 (actions (defeat A cfg l msg s1))).
+  { unfold defeat. destruct (find_cand A (cands s1) l) as [c|]; [|exact H1]. unfold log_action. cbn [is_log is_round actions set_actions HI2].
+    split; [|exact H1]. unfold oka2. cbn [a_tag a_msg a_snap]. right. unfold msg. destruct Hc as [[E1 Hl]|[E4 Hs]].
+    - left. rewrite Est, E1. unfold IS_omega at 1 2. cbn [Z.eqb Pos.eqb]. split; [apply prefix_app2|].
+      eexists; eexists. split; [reflexivity|]. unfold snap_of. cbn [as_surplus]. rewrite Hm. split; [reflexivity|]. cbn [surplus upd set_cands]. rewrite Esp. exact Hl.
+    - right. rewrite Est, E4. unfold IS_stable at 1, IS_omega at 1. cbn [Z.eqb Pos.eqb]. split; [apply prefix_app2|].
+      cbn [actions upd set_cands]. exact (qe_sl _ _ Q Hs). }
+  destruct (crashed (zero_cand A l (defeat A cfg l msg s1))); exact H2.
+Qed.
+
+Lemma hi2_final (s : est) : HI2 (actions s) -> HI2 (actions (meek_final A cfg false s)).
+Proof.
+  intros H. unfold meek_final. cbv zeta. cbn [actions set_residual set_votes].
+  generalize (hopefuls A s) as l. intros l. revert s H. induction l as [|c l IH]; intros s H; cbn [fold_left]; [exact H|]. apply IH.
+  destruct (crashed s); [exact H|]. destruct (_ <? _)%Z; [exact (qe_hi2 _ _ (qe_elect A cfg _ _ _ s) H)|].
+  cbn [actions zero_cand upd set_cands]. unfold defeat. destruct (find_cand A (cands s) (cid c)) as [c0|]; [|exact H].
+  unfold log_action. cbn [is_log is_round actions set_actions HI2]. split; [|exact H]. unfold oka2. cbn [a_tag a_msg]. left. reflexivity.
+Qed.
+
+Lemma prf_begin_qe (f : est -> est) rest : meek_prf A cfg = Seq (Do f) rest -> forall s, QE A s (f s).
+Proof.
+  unfold meek_prf. intros E. injection E as Ef _. subst f. intros s. cbv beta. destruct (omega A cfg); [|apply qe_same; reflexivity]. cbv zeta.
+  destruct (divv A _ _); [|apply qe_same; reflexivity].
+  eapply qe_trans; [|apply qe_log; exact I]. apply qe_same. rewrite actions_fold; [reflexivity|]. intros s0 b. destruct (top_rank A b); reflexivity.
+Qed.
+
+Definition J2 (s : est) : Prop := HI2 (actions s).
+
+Theorem meek_prf_exits : T3 J2 (meek_prf A cfg) J2 J2 J2.
+Proof.
+  pose proof prf_begin_qe as Hb. unfold meek_prf in *.
+  eapply t_seq with (M := J2); [apply t_do; intros s H; exact (qe_hi2 _ _ (Hb _ _ eq_refl s) H)|]. clear Hb.
+  eapply t_seq with (M := J2); [|apply t_do; intros s H; apply hi2_final; exact H].
+  eapply t_post; [|apply (t_while est (@crashed A) J2 J2)]; [intros s [Hs|[Hs _]]; exact Hs|].
+  eapply t_pre; [intros s [Hs _]; exact Hs|].
+  eapply t_seq with (M := J2).
+  { apply t_do. intros s H. unfold J2, new_round, log_action. cbn [is_log is_round actions set_actions set_rounds set_round HI2]. split; [exact I|exact H]. }
+  eapply t_seq with (M := fun s => J2 s /\ PST s).
+  { apply t_do. intros s H. split; [exact H|]. left. reflexivity. }
+  eapply t_seq with (M := fun s => J2 s /\ PST s /\ lv_status s <> IS_iterate).
+  { eapply t_post; [|apply (t_while est (@crashed A) (fun s => J2 s /\ PST s) (fun _ => False))].
+    - intros s [[]|[[H P] Hg]]. split; [exact H|]. split; [exact P|]. intros E. rewrite E in Hg. discriminate.
+    - apply t_do. intros s [[H _] Hg]. assert (Ei: lv_status s = IS_iterate) by lia.
+      destruct (prf_step_exit s Ei) as [Q P]. split; [exact (qe_hi2 _ _ Q H)|exact P]. }
+  eapply t_seq with (M := fun s => J2 s /\ PST s /\ lv_status s <> IS_iterate /\ lv_status s <> IS_elected).
+  { apply t_ite; [apply t_continue'; intros s [[H _] _]; exact H|].
+    apply t_skip'. intros s [[H [P N]] Hg]. split; [exact H|]. split; [exact P|]. split; [exact N|]. unfold IS_elected in *. lia. }
+  apply t_ite; [|apply t_skip'; intros s [[H _] _]; exact H].
+  apply t_do. intros s [[H [P [N1 N2]]] _]. apply hi2_defeat_low; [exact H|].
+  destruct P as [E|[E|[P|P]]]; [contradiction|contradiction|left; exact P|right; exact P].
+Qed.
+
+Lemma hi2_init (pr : profile) : HI2 (actions (init_state A cfg pr)).
+Proof.
+  unfold init_state. cbv zeta. cbn [actions set_eballots set_ballots].
+  match goal with |- HI2 (actions (fold_left ?f ?l ?s0)) => assert (G: forall s, HI2 (actions s) -> HI2 (actions (fold_left f l s))) end.
+  { induction (pr_cands pr) as [|p pcs IH]; intros s H; cbn [fold_left]; [exact H|]. apply IH.
+    unfold log_msg, log_action. cbn [is_log actions set_actions set_cands HI2]. split; [exact I|exact H]. }
+  apply G. exact I.
+Qed.
+
+Theorem count_meek_prf_exits pr fuel s k :
+  exec (@crashed A) fuel (count_cmd A cfg RMeekPrf) (init_state A cfg pr) = Some (s, k) -> k <> Abort ->
+  forall pre a older, actions s = (pre ++ a :: older)%list -> a_tag a = TDefeat ->
+    is_remaining (a_msg a) = true \/
+    (prefix "Defeat (surplus " (a_msg a) = true /\
+       exists sn sp, a_snap a = Some sn /\ as_surplus sn = Some sp /\ ltv A sp (omega_or0 A cfg) = true) \/
+    (prefix "Defeat (stable surplus " (a_msg a) = true /\ stable_logged older = true).
+Proof.
+  intros He Hk.
+  assert (Ht: T3 (fun s0 => s0 = init_state A cfg pr) (count_cmd A cfg RMeekPrf) J2 J2 J2).
+  { unfold count_cmd. cbn [rule_cmd]. eapply t_seq with (M := J2); [apply t_do; intros s0 ->; exact (hi2_init pr)|].
+    eapply t_seq with (M := J2); [apply meek_prf_exits|]. apply t_do. intros s0 H. exact (qe_hi2 _ _ (qe_log A cfg TEnd _ s0 I) H). }
+  specialize (Ht fuel _ s k eq_refl He). assert (H: J2 s) by (destruct k; try exact Ht; congruence). unfold J2 in H.
+  intros pre. revert H. generalize (actions s). induction pre as [|x pre IH]; intros l H a older E Ht'; subst l; cbn [app HI2] in H.
+  - pose proof (proj1 H) as O. unfold oka2 in O. rewrite Ht' in O. exact O.
+  - exact (IH _ (proj2 H) a older eq_refl Ht').
+Qed.
+End PrfExit.
